@@ -101,7 +101,7 @@ PROPS.update({
     "C19": {
         "level": "exploration",
         "cross_outcome": True,
-        "parts": [{"engine": "fault", "profile": "c19", "weight": 1}],
+        "parts": [{"engine": "fault", "profile": "c19", "weight": 5}, {"engine": "fault", "profile": "c06s", "weight": 1}],
         "rule": "worlds: 1..5 (thorough 8) tasks, each one simulated process writing a seeded stream (lines of 0..10000 bytes, LF / CRLF / lone CR, well-formed CSI sequences, unicode, digits and brackets next to sequences, unterminated tail, also ending inside an escape introducer that never completes) cut into write calls at seeded points (also inside CRLF, a CSI sequence or a rune), a share of chunks on stderr; chunk writes of different tasks interleaved one at a time by the controller; task outcomes success / failure / skipped / failing before-hook; one task in eight is interactive (it owns the terminal: its bytes pass unchanged under every format - and only its); every world is run under raw, prefixed and cockpit (index mod 3); a third of the worlds preempt goroutines at function entries of taskctl and of the spinner (cockpit: 40% of releases, within 80 entries). Oracles: the run returns (a lock cycle between cockpit and spinner is a deadlock: rule=deadlock, with the waiting goroutines' call chains); raw sink == chunks in delivery order; prefixed: every sink write is one whole line carrying the name of the task whose chunk is being delivered, per-task payload == stream after removing terminators and CSI sequences; result fields equal across the three formats; no crash. distinct = canonical event-log hash; all runs non-trivial",
         "assumptions": _INTEG_ASSUME + ["hooks print nothing in these worlds (their output bypasses the decorator by design)", "briandowns/spinner (cockpit format) takes part in the simulation with its lock rewritten and its function entries as preemption points; its goroutine runs when the fake clock reaches its next frame; data races on its unsynchronised fields are out of reach"],
     },
